@@ -56,6 +56,9 @@ Inductive case :=
 | KSplit (s : bytes) (o : outcome (list bytes))
 | KRcb (s : bytes) (o : outcome bytes)
 | KTrim (s : bytes) (o : outcome bytes)
+(* a raw request frame sent to the real server (function id 100 = ingestor write, 200 = querier query) and
+   whether it was answered with ok (true) or with an error (false) *)
+| KRpc (fn : nat) (body : bytes) (ok : bool)
 | KOracleOnly (tag : nat).
 
 Definition check (c : case) : bool :=
@@ -96,6 +99,14 @@ Definition check (c : case) : bool :=
   | KSplit s o => outcome_eqb (list_eqb bytes_eqb) (split_string s c_eq c_comma) o
   | KRcb s o => outcome_eqb bytes_eqb (remove_curly_braces s) o
   | KTrim s o => outcome_eqb bytes_eqb (trim_spaces s) o
+  (* the endpoints decode the body with the modelled decoders first: a body the model refuses is never acknowledged
+     (the converse does not hold: the partition service / the cursor may still refuse what decodes) *)
+  | KRpc fn body ok =>
+      if Nat.eqb fn 100 then
+        match wp_init tree_guard tree_fields_fx go_unquote body with Ok _ => true | Err => negb ok | _ => false end
+      else if Nat.eqb fn 200 then
+        match unmarshal_qr tree_guard body with Ok _ => true | Err => negb ok | _ => false end
+      else true
   | KOracleOnly _ => true
   end.
 
